@@ -1,6 +1,7 @@
 package props
 
 import (
+	gqlparser "github.com/vektah/gqlparser/v2"
 	"sort"
 	"strings"
 
@@ -181,7 +182,79 @@ func runC17(c *core.Ctx) {
 		}
 		c.Seen(true, []byte(strings.Join(bases[i].chunks, "\n")))
 	})
-	c.Evals += int64(len(bases) * (nPerm + 1))
+	// sources marked built-in and ordinary sources in every order behind the prelude (which LoadSchema puts
+	// first: of two declarations of a specified directive the first is kept, a documented arbitrary choice, so
+	// the prelude's place is not permuted); what one source declares another declares again, extends, or uses
+	type flagged struct {
+		text    string
+		builtin bool
+	}
+	q := "type Query { a: Int }"
+	sets := [][]flagged{
+		{{"directive @key(fields: String!) on OBJECT", true}, {"directive @key(fields: String!) on OBJECT " + q, false}},
+		{{"directive @key(fields: String!) on OBJECT", true}, {"type T @key(fields: \"a\") { a: Int } " + q, false}},
+		{{"scalar JSON", true}, {"scalar JSON " + q, false}},
+		{{"scalar JSON", true}, {"extend scalar JSON @deprecated " + q, false}},
+		{{"directive @skip(if: Boolean!) on FIELD | FRAGMENT_SPREAD | INLINE_FRAGMENT " + q, false}},
+		{{"directive @skip(if: Boolean!) on FIELD", true}, {q, false}},
+		{{"scalar String " + q, false}}, {{"scalar String", true}, {q, false}}, {{"type __Type { a: Int } " + q, false}},
+		{{"extend type __Type { z: Int } " + q, false}}, {{"directive @key on OBJECT", true}, {"directive @key on OBJECT", true}, {q, false}},
+		{{"directive @key on OBJECT", false}, {"directive @key on OBJECT " + q, false}}, {{"scalar A", true}, {"scalar A", true}, {q, false}},
+		{{"directive @skip(if: Boolean!) on FIELD", true}, {"directive @skip(if: Boolean!, x: Int) on FIELD " + q, false}},
+		{{"directive @key(fields: String!) on OBJECT", true}, {"directive @key(fields: String!) on OBJECT", false}, {"type T @key(fields: \"a\") { a: Int } " + q, false}},
+		{{"type A { a: Int }", true}, {"extend type A { b: Int } " + q, false}}, {{"extend type A { b: Int }", true}, {"type A { a: Int } " + q, false}},
+	}
+	var nOrders int64
+	for _, set := range sets {
+		all := append([]flagged{}, set...)
+		idx := make([]int, len(all))
+		for i := range idx {
+			idx[i] = i
+		}
+		ref, refOrder := "", ""
+		var rec func(k int)
+		rec = func(k int) {
+			if k == len(idx) {
+				var srcs []*ast.Source
+				order := ""
+				for _, j := range idx {
+					name := "s" + itoa(j+1) + ".graphql"
+					srcs = append(srcs, &ast.Source{Name: name, Input: all[j].text, BuiltIn: all[j].builtin})
+					order += name + " "
+				}
+				verdict := ""
+				func() {
+					defer func() {
+						if r := recover(); r != nil {
+							verdict = "panic"
+						}
+					}()
+					s, err := gqlparser.LoadSchema(srcs...)
+					if err != nil {
+						verdict = "err " + err.Error()[strings.Index(err.Error(), " ")+1:]
+					} else {
+						verdict = normalisedSchema(s)
+					}
+				}()
+				nOrders++
+				if ref == "" {
+					ref, refOrder = verdict, order
+				} else if verdict != ref {
+					c.ReportOracle("order-dependent-with-built-in-sources", map[string]interface{}{"sources": set, "order": order, "this_order": firstDiff(ref, verdict),
+						"first_order": refOrder, "first_result": ref[:min(300, len(ref))]})
+				}
+				return
+			}
+			for i := k; i < len(idx); i++ {
+				idx[k], idx[i] = idx[i], idx[k]
+				rec(k + 1)
+				idx[k], idx[i] = idx[i], idx[k]
+			}
+		}
+		rec(0)
+	}
+	c.Count("orders_of_prelude_built_in_and_ordinary_sources", nOrders)
+	c.Evals += int64(len(bases)*(nPerm+1)) + nOrders
 	c.Programs = int64(len(bases))
 	c.Count("schemas_valid_and_single_fault", int64(len(bases)))
 	c.Count("permutations_x_partitions", int64(len(bases)*nPerm))
